@@ -53,6 +53,9 @@ MemberNames == <<"a", "b", "int32", "c", "tag", "d">>
 \* names are unique in the whole program (a few of them collide with keywords and must be written escaped)
 DefName(kind) == LET n == Len(cat) + 1 IN
                  IF n = 3 /\ kind = "struct" THEN "struct" ELSE IF n = 4 /\ kind = "enum" THEN "enum" ELSE IF n = 2 /\ kind = "custom" THEN "custom"
+                 \* the names of built-in types too: written escaped they are ordinary names, and the plain keyword keeps meaning the built-in
+                 ELSE IF n = 5 /\ kind = "struct" THEN "string" ELSE IF n = 1 /\ kind = "custom" THEN "int32" ELSE IF n = 6 /\ kind = "enum" THEN "uint8"
+                 ELSE IF n = 2 /\ kind = "alias" THEN "bool"
                  ELSE (CASE kind = "struct" -> "S" [] kind = "enum" -> "E" [] kind = "interface" -> "I" [] kind = "custom" -> "C" [] kind = "alias" -> "L") \o ToString(n)
 OpName == CASE counter % 33 = 5 -> "idempotent" [] counter % 33 = 16 -> "stream" [] counter % 33 = 27 -> "unchecked" [] OTHER -> "op" \o ToString(counter)
 EnName == IF counter % 11 = 7 THEN "compact" ELSE "N" \o ToString(counter)
